@@ -44,6 +44,7 @@ Definition std_render (v : val) : str :=
       let ms := Z.quot ns 1000000 in
       let a := Z.to_N (Z.abs ms) in
       (if ms <? 0 then [x2d] else []) ++ dec_of_N (a / 1000)%N ++ [x2e] ++ pad3 (a mod 1000)%N
+  | VOpaque _ s => s                             (* TIME / IP / BACKEND / ACL: the text it carries *)
   end.
 
 Definition std_equal (a b : val) : res bool :=
@@ -98,6 +99,7 @@ Definition std_assign (op : aop) (l r : val) : res val :=
   | AEq, VStr _ _ ll, VRTime y false => OK (VStr (std_render (VRTime y false)) false ll)
   | AEq, VBool _ ll, VBool y _ => OK (VBool y ll)
   | AEq, VRTime _ ll, VRTime y _ => OK (VRTime y ll)
+  | AEq, VOpaque j _, VOpaque k s => if (j =? k)%N then OK (VOpaque k s) else Err   (* a copy, same type only *)
   | AAdd, VInt x ll, VInt y _ => OK (VInt (wrap64 (x + y)) ll)
   | ASub, VInt x ll, VInt y _ => OK (VInt (wrap64 (x - y)) ll)
   | AAdd, VRTime x ll, VRTime y _ => OK (VRTime (wrap64 (x + y)) ll)
